@@ -312,6 +312,9 @@ func classifyIndex(w *World, fn *ssa.Function, in ssa.Instruction, coll, idx ssa
 	if bo, ok := idx.(*ssa.BinOp); ok && bo.Op == token.SUB {
 		if k, ok := constInt(bo.Y); ok && k >= 1 {
 			if c, ok := lenOf(bo.X); ok && sameColl(c, coll) {
+				if nonNegFact(b, idx) {
+					return kind, "G3", fmt.Sprintf("index len-%d under the fact that it is >= 0", k)
+				}
 				if minLenAt(b, coll) >= k {
 					return kind, "G3", fmt.Sprintf("index len-%d under len >= %d", k, k)
 				}
@@ -512,9 +515,20 @@ func classifySlice(w *World, fn *ssa.Function, x *ssa.Slice, nonEmpty map[*ssa.G
 	if x.Low == nil && x.High != nil {
 		if bo, ok := x.High.(*ssa.BinOp); ok && bo.Op == token.SUB {
 			if k, ok := constInt(bo.Y); ok {
-				if c, ok := lenOf(bo.X); ok && sameColl(c, x.X) && minLenAt(b, x.X) >= k {
+				if c, ok := lenOf(bo.X); ok && sameColl(c, x.X) && (minLenAt(b, x.X) >= k || nonNegFact(b, x.High)) {
 					return kind, "G3", fmt.Sprintf("x[:len(x)-%d] under len(x) >= %d", k, k)
 				}
+			}
+		}
+	}
+	// G11: s[:i] / s[i+len(sep):] where i = strings.Index(s, sep) and i >= 0 is established
+	if isIndexOf(x.High, x.X) && x.Low == nil && nonNegFact(b, x.High) {
+		return kind, "G11", "s[:i] with i = strings.Index(s, sep) >= 0"
+	}
+	if x.High == nil && x.Low != nil {
+		if bo, ok := x.Low.(*ssa.BinOp); ok && bo.Op == token.ADD && isIndexOf(bo.X, x.X) && nonNegFact(b, bo.X) {
+			if k, ok := constInt(bo.Y); ok && k >= 0 && k <= indexSepLen(bo.X) {
+				return kind, "G11", "s[i+k:] with i = strings.Index(s, sep) >= 0 and k <= len(sep)"
 			}
 		}
 	}
@@ -885,4 +899,45 @@ func rC19IterAfterNext(w *World, r *Report) {
 			ru.Bad(key, w.IPos(c), "Value() can be called before the first Next(): the iterator would index its slice with -1")
 		}
 	}
+}
+
+// nonNegFact: the facts at b establish v >= 0.
+func nonNegFact(b *ssa.BasicBlock, v ssa.Value) bool {
+	for _, f := range factsAt(b) {
+		if f.Y == nil || f.X != v {
+			continue
+		}
+		k, ok := constInt(f.Y)
+		if !ok {
+			continue
+		}
+		switch {
+		case f.Op == token.GEQ && k >= 0, f.Op == token.GTR && k >= -1, f.Op == token.NEQ && k == -1 && isIndexOf(v, nil):
+			return true
+		}
+	}
+	return false
+}
+
+// isIndexOf: v is strings.Index(s, sep) (s unconstrained when nil).
+func isIndexOf(v, s ssa.Value) bool {
+	c, ok := v.(*ssa.Call)
+	if !ok || (calleeName(c) != "strings.Index" && calleeName(c) != "strings.IndexByte") {
+		return false
+	}
+	return s == nil || c.Call.Args[0] == s || sameColl(c.Call.Args[0], s)
+}
+
+func indexSepLen(v ssa.Value) int64 {
+	c, ok := v.(*ssa.Call)
+	if !ok {
+		return 0
+	}
+	if calleeName(c) == "strings.IndexByte" {
+		return 1
+	}
+	if sep, ok := constString(c.Call.Args[1]); ok {
+		return int64(len(sep))
+	}
+	return 0
 }
